@@ -1098,6 +1098,50 @@ def wide_integers(run) -> None:
                                   engine='wide-integers', key='wide-integer-altered')
 
 
+def stub_after_definition(run) -> None:
+    """Two unrelated documents read in one process: the first defines an element with UUID U, the second only refers to U
+    through a stub.  What the second parse returns depends on the second document alone - the stub stays a stub."""
+    import io as _io
+    from uuid import UUID
+    from srctools.dmx import Element, Attribute, StubElement, ValueType
+    for k, (enc, opts) in enumerate([('kv2', dict(flat=False)), ('kv2', dict(flat=True)), ('kv2', dict(flat=False, cull_uuid=True)),
+                                     ('bin', dict(version=5)), ('bin', dict(version=2))]):
+        uid = UUID(int=0x1234567890abcdef1234567890abcd00 + k)
+        first = Element('first', 'DmElement')
+        target = Element('the target', 'DmeTarget', uuid=uid)
+        target['payload'] = 42
+        first['child'] = target
+        second = Element('second', 'DmElement')
+        second['ref'] = StubElement.stub(uid)
+        arr = Attribute.array('refs', ValueType.ELEMENT)
+        arr.append(StubElement.stub(uid))
+        second['refs'] = arr
+        case = {'engine': 'stub-after-definition', 'encoding': enc, **{a: str(b) for a, b in opts.items()}}
+        try:
+            docs = []
+            for root in (first, second):
+                b = _io.BytesIO()
+                if enc == 'kv2':
+                    root.export_kv2(b, 't', 1, **({} if root is first else opts))
+                else:
+                    root.export_binary(b, fmt_name='t', fmt_ver=1, **opts)
+                docs.append(b.getvalue())
+            r1, _, _ = Element.parse(_io.BytesIO(docs[0]))
+            r2, _, _ = Element.parse(_io.BytesIO(docs[1]))
+            got = [r2['ref'].val_elem] + list(r2['refs'].iter_elem())
+        except Exception as exc:
+            run.violation(f'{enc} {opts}: a document holding only a stub, read after another document, raised {exc!r}',
+                          witness=traceback.format_exc()[-900:], case=case, engine='stub-after-definition', key='stub-after-definition')
+            continue
+        run.count('stub_documents_read_after_a_defining_document')
+        for g in got:
+            if not g.is_stub or g.uuid != uid or g is r1['child'].val_elem or len(g) != 0:
+                run.violation(f'{enc} {opts}: a stub reference to {uid} came back as {g!r} after another document that defines that '
+                              f'UUID had been read in the same process', case=case, engine='stub-after-definition',
+                              key='stub-after-definition')
+                break
+
+
 def _preflight(run) -> None:
     from rv.monitor import Inconclusive
     import srctools.dmx as dmx
@@ -1181,9 +1225,10 @@ def main(run, shard=(0, 1)) -> None:
     if shard[0] == 0:
         name_attr_case(run)
         wide_integers(run)
+        stub_after_definition(run)
     probe.report(run)
     probe.check_reached(run)
-    run.require('wide_integer_roundtrips', 'default_argument_exports', 'legacy_version_0_roundtrips', 'string_table_overflow_refused', 'second_generation_roundtrips', 'bytes_parsed_again_after_the_first_graph_was_edited', 'binary_parses', 'kv2_parses', 'real_file_roundtrips', 'repeated_exports', 'graphs_re_exported_after_edits', 'independent_decodes_agree', 'to_kv1_calls', 'to_kv1_after_wire',
+    run.require('wide_integer_roundtrips', 'stub_documents_read_after_a_defining_document', 'default_argument_exports', 'legacy_version_0_roundtrips', 'string_table_overflow_refused', 'second_generation_roundtrips', 'bytes_parsed_again_after_the_first_graph_was_edited', 'binary_parses', 'kv2_parses', 'real_file_roundtrips', 'repeated_exports', 'graphs_re_exported_after_edits', 'independent_decodes_agree', 'to_kv1_calls', 'to_kv1_after_wire',
                 'graphs_with_sharing', 'graphs_with_cycle', 'graphs_with_self_loop', 'graphs_with_nameless_elements', 'stub_occurrences', 'null_in_array_occurrences',
                 'empty_array_occurrences', 'scalar_matrix_occurrences', 'name_needs_escape_occurrences',
                 'unicode_string_array_occurrences', 'unicode_type_occurrences', 'ascii_mode_refused_non_ascii',
@@ -1222,4 +1267,4 @@ def replay(run, data) -> None:
 
 
 # (kept at the end of the file so that the text above stays the description the check was first built to)
-RULE += ' ' + "Later additions: binary version 0 (legacy header, format names 'sfm' / 'binary'); a graph with 33 200 table strings (versions 2-4 may refuse it); attributes built through the typed constructors and arrays filled through append / extend / __setitem__ / __delitem__. A third of the parses read the document from a stream that holds other bytes in front of it and stands at its first byte. Integers beyond 32 and beyond 53 bits written as text (scalars and array items, every layout option) come back exactly."
+RULE += ' ' + "Later additions: binary version 0 (legacy header, format names 'sfm' / 'binary'); a graph with 33 200 table strings (versions 2-4 may refuse it); attributes built through the typed constructors and arrays filled through append / extend / __setitem__ / __delitem__. A third of the parses read the document from a stream that holds other bytes in front of it and stands at its first byte. Integers beyond 32 and beyond 53 bits written as text (scalars and array items, every layout option) come back exactly. A document that only refers to a UUID through stubs is read after an unrelated document that defines that UUID: the stubs stay stubs."
